@@ -167,31 +167,35 @@ theorem C12_udp_cut (ds : List Bytes) (hwf : ds.all wfDgram = true) (cut : Nat) 
   drainAll_cut ds hwf cut
 
 /-- **Termination, everywhere**: for every tunnel stream content (valid, cut anywhere, hostile), every
-chunking, every ending of either side and every schedule, the repaired relay returns, and what it
-wrote to the UDP socket is the parse of the flattened stream — independent of the chunking. The only
+chunking, every ending of either side, a UDP socket refusing a Write, and every schedule, the repaired relay
+returns, and what it wrote to the UDP socket is the parse of the flattened stream — independent of the
+chunking (a prefix of it if the socket refused a Write). The only
 hypothesis: not both sides stay silent forever. -/
 theorem C12_udp_terminates (c : UdpCase) (hwf : ¬ (c.utail = .hold ∧ c.ttail = .hold)) (σ : List UTok) :
     (udpRun .repaired c (udpComplete c σ)).returned = true ∧
-    (udpRun .repaired c (udpComplete c σ)).dec.out = (drainAll c.tchunks.flatten).pk := by
+    ((udpRun .repaired c (udpComplete c σ)).dec.stop ≠ .werr →
+      (udpRun .repaired c (udpComplete c σ)).dec.out = (drainAll c.tchunks.flatten).pk) ∧
+    (udpRun .repaired c (udpComplete c σ)).dec.out <+: (drainAll c.tchunks.flatten).pk := by
   have h := udp_returned c hwf σ
   have hd : (udpRun .repaired c (udpComplete c σ)).dec.done = true := by
     have := h.1; simp only [UdpSt.returned, Bool.and_eq_true] at this; exact this.2
-  exact ⟨h.1, (h.2.1.dec.fin ((Dec.done_iff _).mp hd)).symm⟩
+  exact ⟨h.1, fun hnw => (h.2.1.dec.fin ((Dec.done_iff _).mp hd) hnw).symm, decInv_out_prefix _ _ h.2.1.dec⟩
 
 /-- **Main UDP theorem.** For all datagram/tick sequences on the UDP side (the flush schedule), all
 tunnel streams that are the encoding of well-formed datagrams cut at ANY offset (or followed by
 arbitrary bytes), all chunkings of that stream, all endings (EOF / error / blocked until closed, error
-fused with the last chunk) and all schedules of the two goroutines — including flush Writes that stay in
+fused with the last chunk), a UDP socket that refuses a Write at any index `uw` (then a prefix arrives and the
+relay still returns) and all schedules of the two goroutines — including flush Writes that stay in
 progress on a slow tunnel while datagrams arrive and further flushes are triggered, and slow Writes on the
 UDP socket —: the relay returns, the UDP side got
 exactly the datagrams complete before the cut, the tunnel got exactly the encoding of the datagrams
 read from the UDP socket (ticks change nothing), all of them if the tunnel stays up. -/
-theorem C12_udp (sc : UdpSpecCase) (chunks : List Bytes) (hflat : chunks.flatten = sc.stream)
+theorem C12_udp (sc : UdpSpecCase) (chunks : List Bytes) (uw : Option Nat) (hflat : chunks.flatten = sc.stream)
     (hwf : ¬ (sc.utail = .hold ∧ sc.ttail = .hold)) (σ : List UTok) :
-    holdsUdp sc (udpObs (udpRun .repaired ⟨sc.uevs, sc.utail, chunks, sc.ttail, sc.tfused⟩
-      (udpComplete ⟨sc.uevs, sc.utail, chunks, sc.ttail, sc.tfused⟩ σ))) = true := by
-  have h := udp_returned ⟨sc.uevs, sc.utail, chunks, sc.ttail, sc.tfused⟩ hwf σ
-  exact holdsUdp_of sc chunks hflat _ h.2.1 h.1
+    holdsUdp sc (udpObs (udpRun .repaired ⟨sc.uevs, sc.utail, chunks, sc.ttail, sc.tfused, uw⟩
+      (udpComplete ⟨sc.uevs, sc.utail, chunks, sc.ttail, sc.tfused, uw⟩ σ))) = true := by
+  have h := udp_returned ⟨sc.uevs, sc.utail, chunks, sc.ttail, sc.tfused, uw⟩ hwf σ
+  exact holdsUdp_of sc chunks uw hflat _ h.2.1 h.1
 
 /-- **Asynchronous local socket** (`mapping.UDPVirtualConn`, the `localConn` that `tunnel.runDataCopy` hands to
 `iocopy.UDP`): its `Write` queues a private copy and a send loop delivers it later. For all the inputs of
@@ -200,10 +204,10 @@ and buffer compactions (tokens `s`), the local application receives exactly the 
 cut — same boundaries, contents, order. -/
 theorem C12_udp_async_socket (sc : UdpSpecCase) (chunks : List Bytes) (hflat : chunks.flatten = sc.stream)
     (hwf : ¬ (sc.utail = .hold ∧ sc.ttail = .hold)) (σ : List UTok) :
-    holdsUdp sc (udpObsV (udpRun .repaired ⟨sc.uevs, sc.utail, chunks, sc.ttail, sc.tfused⟩
-      (udpComplete ⟨sc.uevs, sc.utail, chunks, sc.ttail, sc.tfused⟩ σ))) = true := by
-  have h := udp_returned ⟨sc.uevs, sc.utail, chunks, sc.ttail, sc.tfused⟩ hwf σ
-  exact holdsUdpV_of sc chunks hflat _ h.2.1 h.1 h.2.2
+    holdsUdp sc (udpObsV (udpRun .repaired ⟨sc.uevs, sc.utail, chunks, sc.ttail, sc.tfused, none⟩
+      (udpComplete ⟨sc.uevs, sc.utail, chunks, sc.ttail, sc.tfused, none⟩ σ))) = true := by
+  have h := udp_returned ⟨sc.uevs, sc.utail, chunks, sc.ttail, sc.tfused, none⟩ hwf σ
+  exact holdsUdpV_of sc chunks none hflat _ h.2.1 h.1 h.2.2
 
 /-- What has been sent is, at every moment of every run, a prefix of what the relay wrote, unaffected by
 anything the relay does to its read buffer afterwards: sends never change `dec.out`, the relay never changes
@@ -357,15 +361,15 @@ theorem C12_driver_runs_the_model (A B : EP) (σ : List TTok) (v : Variant) (c :
 /-- C12-a as found: the tunnel ends inside a record (`00 05 'a' 'b'`, then EOF) — the loop re-reads
 EOF forever; under the same schedule the repaired loop returns. -/
 theorem C12_udp_asFound_spin_witness :
-    (udpRun .asFound ⟨[], .eof, [[0, 5, 97, 98]], .eof, false⟩ (udpComplete ⟨[], .eof, [[0, 5, 97, 98]], .eof, false⟩ [])).returned = false ∧
-    (udpRun .repaired ⟨[], .eof, [[0, 5, 97, 98]], .eof, false⟩ (udpComplete ⟨[], .eof, [[0, 5, 97, 98]], .eof, false⟩ [])).returned = true := by
+    (udpRun .asFound ⟨[], .eof, [[0, 5, 97, 98]], .eof, false, none⟩ (udpComplete ⟨[], .eof, [[0, 5, 97, 98]], .eof, false, none⟩ [])).returned = false ∧
+    (udpRun .repaired ⟨[], .eof, [[0, 5, 97, 98]], .eof, false, none⟩ (udpComplete ⟨[], .eof, [[0, 5, 97, 98]], .eof, false, none⟩ [])).returned = true := by
   decide
 
 /-- C12-b as found: the tunnel ends at a record boundary while the UDP socket is silent — the
 UDP→tunnel goroutine stays blocked in Read and `UDP` never returns. -/
 theorem C12_udp_asFound_hang_witness :
-    (udpRun .asFound ⟨[], .hold, [[0, 2, 97, 98]], .eof, false⟩ (udpComplete ⟨[], .hold, [[0, 2, 97, 98]], .eof, false⟩ [])).returned = false ∧
-    (udpObs (udpRun .repaired ⟨[], .hold, [[0, 2, 97, 98]], .eof, false⟩ (udpComplete ⟨[], .hold, [[0, 2, 97, 98]], .eof, false⟩ []))).udp = [[97, 98]] := by
+    (udpRun .asFound ⟨[], .hold, [[0, 2, 97, 98]], .eof, false, none⟩ (udpComplete ⟨[], .hold, [[0, 2, 97, 98]], .eof, false, none⟩ [])).returned = false ∧
+    (udpObs (udpRun .repaired ⟨[], .hold, [[0, 2, 97, 98]], .eof, false, none⟩ (udpComplete ⟨[], .hold, [[0, 2, 97, 98]], .eof, false, none⟩ []))).udp = [[97, 98]] := by
   decide
 
 /-! ## Non-vacuity -/
@@ -377,8 +381,8 @@ next datagram arrives. -/
 example :
     let sc : UdpSpecCase := ⟨[.dgram [1, 2], .tick, .dgram [3]], .hold, [[97], [98, 99]], 4, [], .err, true⟩
     [[0, 1], [97], [0]].flatten = sc.stream ∧ ¬ (sc.utail = .hold ∧ sc.ttail = .hold) ∧
-    (udpObs (udpRun .repaired ⟨sc.uevs, sc.utail, [[0, 1], [97], [0]], sc.ttail, sc.tfused⟩
-      (udpComplete ⟨sc.uevs, sc.utail, [[0, 1], [97], [0]], sc.ttail, sc.tfused⟩ [.u, .t, .uh, .t, .u, .w]))).udp = [[97]] := by
+    (udpObs (udpRun .repaired ⟨sc.uevs, sc.utail, [[0, 1], [97], [0]], sc.ttail, sc.tfused, none⟩
+      (udpComplete ⟨sc.uevs, sc.utail, [[0, 1], [97], [0]], sc.ttail, sc.tfused, none⟩ [.u, .t, .uh, .t, .u, .w]))).udp = [[97]] := by
   decide
 
 example : wfDgram [7] = true ∧ [[7], [8, 9]].all wfDgram = true ∧ completeBefore [[7], [8, 9]] 6 = [[7]] := by decide
@@ -421,11 +425,17 @@ example :
 /-- Asynchronous socket: the first read ends inside the second record (so the window is compacted over the bytes
 just handed to `Write`), the sends happen only after the next read: both datagrams arrive intact. -/
 example :
-    (udpObsV (udpRun .repaired ⟨[], .hold, [[0, 1, 65, 0, 2, 66], [67]], .eof, false⟩
-      (udpComplete ⟨[], .hold, [[0, 1, 65, 0, 2, 66], [67]], .eof, false⟩ [.t, .t, .s, .s]))).udp = [[65], [66, 67]] ∧
-    (udpObsV (udpRun .repaired ⟨[], .hold, [[0, 1, 65, 0, 2, 66], [67]], .eof, false⟩ [.t, .t, .s])).udp = [[65]] := by decide
+    (udpObsV (udpRun .repaired ⟨[], .hold, [[0, 1, 65, 0, 2, 66], [67]], .eof, false, none⟩
+      (udpComplete ⟨[], .hold, [[0, 1, 65, 0, 2, 66], [67]], .eof, false, none⟩ [.t, .t, .s, .s]))).udp = [[65], [66, 67]] ∧
+    (udpObsV (udpRun .repaired ⟨[], .hold, [[0, 1, 65, 0, 2, 66], [67]], .eof, false, none⟩ [.t, .t, .s])).udp = [[65]] := by decide
+
+/-- The UDP socket refuses its second Write: the first datagram has arrived, the error is reported, the relay returns. -/
+example :
+    (udpObs (udpRun .repaired ⟨[], .hold, [[0, 1, 65, 0, 1, 66, 0, 1, 67]], .eof, false, some 1⟩
+      (udpComplete ⟨[], .hold, [[0, 1, 65, 0, 1, 66, 0, 1, 67]], .eof, false, some 1⟩ []))) =
+      ⟨true, [], [[65]], 0, true, false, true, 0, 1⟩ := by decide
 
 /-- `holdsUdp` is not trivially true: a relay that dropped the datagram before the cut fails it. -/
-example : holdsUdp ⟨[], .hold, [[97]], 3, [], .eof, false⟩ ⟨true, [], [], 0, false, false, 0, 0⟩ = false := by decide
+example : holdsUdp ⟨[], .hold, [[97]], 3, [], .eof, false⟩ ⟨true, [], [], 0, false, false, false, 0, 0⟩ = false := by decide
 
 end Tunnox.C12
